@@ -266,7 +266,16 @@ def Sys.apply (s : Sys) (idx : Nat) (op : Op) (seen : Seen) (_late : Option Seen
       | .ok n =>
         if n != op.payload.length then throw s!"write h={op.h}: returned n={n} for {op.payload.length} bytes"
         match e.fire (.write op.h op.payload .ok) with
-        | none => throw s!"write h={op.h}: succeeded in the implementation, connection closed in the model"
+        | none =>
+          -- `mux.Close` closes the connections one by one and the trunk last: a Write on a
+          -- connection it has not reached yet still goes out (or is swallowed by the tap)
+          match e.st.objs[op.h]? with
+          | some c =>
+            if e.st.closed && c.closed && AList.lookup e.st.cmap c.id == some op.h then
+              let w := s.outWire x
+              return s.setOutWire x (if w.exactUpTo.isNone then { w with exactUpTo := some w.sent.length } else w)
+          | none => pure ()
+          throw s!"write h={op.h}: succeeded in the implementation, connection closed in the model"
         | some e' =>
           let c ← lookupConn e op.h
           match encodeWrite e.st.cfg.mp c.id op.payload with
@@ -299,7 +308,10 @@ def Sys.apply (s : Sys) (idx : Nat) (op : Op) (seen : Seen) (_late : Option Seen
         -- `mux.Close` closes the connections one after the other and the trunk last: a Write on
         -- a connection it has not reached yet passes the `doneC` check and fails on the trunk
         match e.st.objs[op.h]? with
-        | some c => if e.st.closed && c.closed then return s
+        | some c =>
+          if e.st.closed && c.closed then
+            let w := s.outWire x
+            return s.setOutWire x (if w.exactUpTo.isNone then { w with exactUpTo := some w.sent.length } else w)
         | none => pure ()
         match e.fire (.write op.h op.payload (.errTrunk false)) with
         | some e' =>
